@@ -47,7 +47,7 @@ def _run_unit(arg):
     modname, idx = arg
     t0 = time.time()
     try:
-        from . import execu, omap, stdmodels, simobj, msd, fsys  # noqa: F401  (register theories)
+        from . import execu, omap, stdmodels, simobj, msd, fsys, heaps  # noqa: F401  (register theories)
         msd.install()
         fsys.install()
         mod = importlib.import_module(modname)
